@@ -204,7 +204,10 @@ pub fn scenario(id: u64, seed: u64, thorough: bool) -> Vec<Value> {
     let ifs = topology(&mut r);
     let svcs = services(&mut r, &ifs);
     let links: Vec<Vec<(usize, u32)>> = ifs.iter().map(|i| vec![(0usize, i.index)]).collect();
-    let mut s = Sim::new(json!({"id": id, "family": "respond"}), seed ^ id, vec![ifs.clone()], links);
+    // sometimes the second interface only shows up after the registrations ("interfaces appearing later")
+    let late_if = ifs.len() > 1 && r.chance(1, 3);
+    let first: Vec<IfSpec> = if late_if { ifs[..1].to_vec() } else { ifs.clone() };
+    let mut s = Sim::new(json!({"id": id, "family": "respond", "late_if": late_if}), seed ^ id, vec![first.clone()], links);
     let d = s.spawn(0);
     s.monitor(d);
     s.kick(d);
@@ -212,9 +215,25 @@ pub fn scenario(id: u64, seed: u64, thorough: bool) -> Vec<Value> {
     let mut registered: Vec<Svc> = vec![];
     // registrations, possibly staggered while others are probing
     for sv in &svcs {
-        s.register(d, sv.info());
+        let mut info = sv.info();
+        if late_if && r.chance(1, 2) {
+            info = info.enable_addr_auto();
+        }
+        s.register(d, info);
         s.kick(d);
         registered.push(sv.clone());
+        if r.chance(1, 2) {
+            // somebody asks while the name is still being probed
+            let q = gen_query(&mut r, &registered);
+            let ifc = r.pick(&first).clone();
+            let want_v4 = ifc.addrs.iter().any(|(a, _)| a.is_ipv4());
+            if let Some(src) = peer_src(&mut r, &ifc, want_v4, false) {
+                t += r.range(0, 700);
+                s.run_until(t);
+                s.deliver(d, ifc.index, src, &q, false);
+                s.kick(d);
+            }
+        }
         if r.chance(1, 2) {
             t += r.range(0, 900);
             s.run_until(t);
@@ -222,6 +241,12 @@ pub fn scenario(id: u64, seed: u64, thorough: bool) -> Vec<Value> {
     }
     t += 2600;
     s.run_until(t);
+    if late_if {
+        s.set_ifs(0, ifs.clone());
+        // the daemon looks at the interface table every five seconds; then it probes and announces
+        t += 8200;
+        s.run_until(t);
+    }
     let steps = if thorough { 40 } else { 14 };
     for _ in 0..steps {
         t += r.range(20, 1500);
